@@ -8,7 +8,7 @@ from __future__ import annotations
 
 import numpy as np
 
-from .. import em, games
+from .. import em, games, simthreads
 from .. import prelude
 from ..core import Sim
 
@@ -16,14 +16,16 @@ LEVEL = "exploration"
 RULE = ("Each run wraps one environment (n = 3..6, class-matched hidden games from harness constructions or "
         "registered families, any gap function, budget None or k) in the linear wrapper and plays tape-drawn allowed "
         "sizes until done (resets in between), with the global numpy stream re-seeded from the tape before every "
-        "step; after every call mask, revealed coalition, reward, done and aggregated observation are compared with "
+        "step, the wrapper sometimes pickled or deep-copied mid-session and sometimes stepped while another "
+        "wrapper is stepped in a second caller thread; after every call mask, revealed coalition, reward, done and aggregated observation are compared with "
         "the inner environment and the reference model. Non-trivial = evaluated after a step; distinct = distinct "
         "event-log digests.")
 STATE_MEASURE = "distinct (n, set of revealed coalitions) at which the wrapper was compared with the inner environment"
 REAL_VS_STUB = {"real": ["icg_gym_linear.ICG_Gym_Linear", "icg_gym.ICG_Gym", "bounds", "normalize"], "stub": [],
-                "seams": ["legacy global numpy RNG set from the tape before every step (tie-breaks)"]}
+                "seams": ["legacy global numpy RNG set from the tape before every step (tie-breaks)",
+                          "pickle / deepcopy of the wrapper mid-session", "line-granular thread interleaver (sim/simthreads.py)"]}
 ASSUMPTIONS = ["the inner environment's own outputs are judged by the C09 oracle in the same run"]
-PROBES = ["whole_size_class_initially_known", "large_n_mode", "second_environment_same_process", "initial_knowledge_beyond_minimal", "size_exhausted_masked", "tie_break_among_3plus", "reset_mid_episode", "done_reached", "n6"]
+PROBES = ["wrapper_copied_mid_session", "step_overlapped_with_another_wrappers_step", "whole_size_class_initially_known", "large_n_mode", "second_environment_same_process", "initial_knowledge_beyond_minimal", "size_exhausted_masked", "tie_break_among_3plus", "reset_mid_episode", "done_reached", "n6"]
 TIERS = {
     "quick": {"runs": 10000, "wall": 40, "batch": 8, "shrink_s": 40},
     "thorough": {"runs": 2000000, "wall": 900, "batch": 16, "shrink_s": 120},
@@ -165,6 +167,7 @@ def _session(sim: Sim, ICG_Gym_Linear, n, cls, comp_name, gaps, gap_name, budget
     hidden = source.current()
     check_linear(sim, lin, env, n, explorable, set(), ctx)
     calls = 6 + sim.choose(2 * len(explorable) + 4, "calls")
+    other = None
     for _ in range(calls):
         revealed = {explorable[a] for a in revealed_actions}
         allowed = [k for k in range(n) if any(games.popcount(e) == k and e not in revealed for e in explorable)]
@@ -184,6 +187,20 @@ def _session(sim: Sim, ICG_Gym_Linear, n, cls, comp_name, gaps, gap_name, budget
                 sim.fail("C16.reset_observation", {**ctx, "got": np.array(obs).tolist()})
             em.check_env(sim, env, n, comp_name, gaps[gap_name], hidden, revealed_actions, steps, budget, True, exact, "C16.inner", extras=extras)
             continue
+        if sim.flip(1, 14, "process-boundary") and getattr(lin, "icg_gym", None) is env:
+            # the wrapper is shipped to another process / copied (what evaluate() with a pool and vectorised
+            # training do): the session continues on the copy, whose inner environment and source travelled with it
+            import copy
+            import pickle
+            how = sim.pick(["pickle", "deepcopy"], "copy-how")
+            sim.op("copy-wrapper", how)
+            with sim.guard("C16.copying_raised"):
+                lin = pickle.loads(pickle.dumps(lin)) if how == "pickle" else copy.deepcopy(lin)
+                env = lin.icg_gym
+                source = env.generator
+            sim.fault("wrapper_crossed_a_process_boundary")
+            sim.probe("wrapper_copied_mid_session")
+            check_linear(sim, lin, env, n, explorable, revealed, ctx)
         k = sim.pick(allowed, "size")
         cands = [a for a, e in enumerate(explorable) if games.popcount(e) == k and e not in revealed]
         if len(cands) >= 3:
@@ -191,8 +208,30 @@ def _session(sim: Sim, ICG_Gym_Linear, n, cls, comp_name, gaps, gap_name, budget
         np.random.seed(sim.choose(2 ** 32, "tie-break-stream"))
         sim.op("step", k)
         known_before = np.array(env.incomplete_game.are_values_known()).copy()
+        other_call = None
+        if n <= 5 and sim.flip(1, 5, "threads"):
+            if other is None:
+                v2, _ = games.draw_game(sim, n, cls)
+                other = ICG_Gym_Linear(em.make_env(n, comp_name, em.ListSource([v2], n), gaps[gap_name], None))
+            allowed2 = [int(x) for x in np.nonzero(np.array(other.action_masks()))[0]]
+            if not allowed2:
+                other.reset()
+                allowed2 = [int(x) for x in np.nonzero(np.array(other.action_masks()))[0]]
+            k2 = sim.pick(allowed2, "other-size")
+            other_env = other
+
+            def other_call():
+                try:
+                    other_env.step(k2)
+                except Exception:  # not judged
+                    pass
         with sim.guard("C16.step_raised"):
-            ret = lin.step(k)
+            if other_call is not None:
+                # a second wrapper is stepped by another caller thread while the judged step runs
+                ret = simthreads.interleave(sim, [lambda: lin.step(k), other_call])[0]
+                sim.probe("step_overlapped_with_another_wrappers_step")
+            else:
+                ret = lin.step(k)
         known_after = np.array(env.incomplete_game.are_values_known())
         newly = [int(i) for i in np.nonzero(known_after & ~known_before)[0]]
         gone = [int(i) for i in np.nonzero(~known_after & known_before)[0]]
